@@ -168,3 +168,15 @@ let () =
       String.concat " " [string_of_int (int_of_n m); string_of_int (int_of_n e); string_of_int (int_of_n im);
                          string_of_int (int_of_n ie); b01 (version_le (im, ie) (m, e))]
     | _ -> "?args")
+
+(* leafenc encmeta class -> "writer-model iso-requirement" *)
+let leaf_of_string = function
+  | "string" -> LfString | "streamdict" -> LfStreamDictString | "ostring" -> LfStringInObjStm
+  | "sigcontents" -> LfSigContents | "encdict" -> LfEncDictString | "trailer" -> LfTrailerString
+  | "metadict" -> LfMetaDictString | "stream" -> LfStreamData | "objstm" -> LfObjStmData
+  | "hint" -> LfHintStreamData | "metastream" -> LfMetaStreamData | "xref" -> LfXRefStreamData
+  | s -> failwith ("leaf " ^ s)
+let () =
+  register "leafenc" (fun args -> match args with
+    | [em; cls] -> b01 (writer_encrypts (em = "1") (leaf_of_string cls)) ^ " " ^ b01 (iso_requires_encrypted (em = "1") (leaf_of_string cls))
+    | _ -> "?args")
